@@ -124,6 +124,36 @@ impl Ty {
         v.dedup();
         v
     }
+    /// The full boundary set of the property: every 2^k, 2^k - 1, 2^k + 1 (and their negations
+    /// for signed types) that the type holds, besides `boundaries()`.
+    pub fn all_powers(&self) -> Vec<BigInt> {
+        let mut v = self.boundaries();
+        for k in 0..=self.bits.min(256) {
+            let p = BigInt::one() << k;
+            for x in [p.clone(), &p - 1, &p + 1, -&p, -&p - 1, -&p + 1] {
+                v.push(x);
+            }
+        }
+        v.retain(|x| self.contains(x));
+        v.sort();
+        v.dedup();
+        v
+    }
+    /// A value with structure: 2^a +- 2^b +- c (carry and limb boundaries of wide operations).
+    pub fn structured(&self, rng: &mut Rng) -> BigInt {
+        let bits = self.bits.min(256) as usize;
+        let a = BigInt::one() << rng.below(bits + 1);
+        let b = BigInt::one() << rng.below(bits + 1);
+        let c = BigInt::from(rng.below(3));
+        let v = match rng.below(4) {
+            0 => a + b + c,
+            1 => a - b - c,
+            2 => a - b + c,
+            _ => -a + b - c,
+        };
+        let span = self.max() - self.min() + 1;
+        self.min() + (v - self.min()).mod_floor(&span)
+    }
     pub fn random(&self, rng: &mut Rng) -> BigInt {
         let span = self.max() - self.min() + 1;
         let bits = 1 + rng.below(self.bits.min(256) as usize);
@@ -369,10 +399,36 @@ pub fn inputs(case: &OpCase, tier: Tier, rng: &mut Rng, exhaustive8: bool) -> (V
         .map(|(i, t)| if small_exp(case, i) { [0u32, 1, 2, 3, 7, 8, 15, 16, 31, 32, 63, 64, 127, 128, 255, 256].iter().map(|x| BigInt::from(*x)).collect() } else { t.boundaries() })
         .collect();
     if bounds.len() == 1 {
-        for a in &bounds[0] {
+        let full = if small_exp(case, 0) { bounds[0].clone() } else { case.params[0].all_powers() };
+        for a in &full {
             out.push(vec![a.clone()]);
         }
     } else {
+        // Every power-of-two neighbour of each operand against a few partners (all reduced
+        // boundaries in the thorough tier).
+        for side in 0..2usize.min(bounds.len()) {
+            if small_exp(case, side) {
+                continue;
+            }
+            let other = 1 - side;
+            for a in case.params[side].all_powers() {
+                let partners: Vec<BigInt> = if tier == Tier::Thorough {
+                    bounds[other].clone()
+                } else {
+                    let mut p = vec![a.clone(), rng.pick(&bounds[other]).clone(), rng.pick(&bounds[other]).clone()];
+                    if !case.params[other].contains(&a) || small_exp(case, other) {
+                        p.remove(0);
+                    }
+                    p
+                };
+                for b in partners {
+                    let mut v = vec![BigInt::zero(); 2];
+                    v[side] = a.clone();
+                    v[other] = b;
+                    out.push(v);
+                }
+            }
+        }
         for a in &bounds[0] {
             for b in &bounds[1] {
                 out.push(vec![a.clone(), b.clone()]);
@@ -381,7 +437,7 @@ pub fn inputs(case: &OpCase, tier: Tier, rng: &mut Rng, exhaustive8: bool) -> (V
     }
     let nrand = tier.pick(150, 10_000);
     for _ in 0..nrand {
-        out.push(case.params.iter().enumerate().map(|(i, t)| if small_exp(case, i) { BigInt::from(rng.below(300)) } else if rng.chance(1, 4) { rng.pick(&t.boundaries()).clone() } else { t.random(rng) }).collect());
+        out.push(case.params.iter().enumerate().map(|(i, t)| if small_exp(case, i) { BigInt::from(rng.below(300)) } else if rng.chance(1, 4) { rng.pick(&t.boundaries()).clone() } else if rng.chance(1, 3) { t.structured(rng) } else { t.random(rng) }).collect());
     }
     (out, false)
 }
@@ -431,6 +487,17 @@ pub fn run_case(acc: &mut ShardResult, case: &OpCase, tier: Tier, seed: u64, exh
         let got = match &rec.outcome {
             Outcome::Success(cells) => Expected::Value(values::decode_result(&prog.builder, &func, cells, &rec.memory)),
             Outcome::Panic(_) => Expected::Panic,
+            Outcome::VmError(e) => {
+                // The honest run of a primitive operation dies in the VM: the operation gives no
+                // result at all on this operand (and no proof of the run exists).
+                let vs: Vec<String> = v.iter().map(|x| x.to_string()).collect();
+                acc.violation(
+                    &format!("{label}:vm-error"),
+                    &format!("{label}({}) does not complete: the VM rejects the honest run ({}) but the mathematical result is {}", vs.join(", "), e.chars().take(160).collect::<String>(), match &expect { Expected::Panic => "panic".to_string(), Expected::Value(v) => v.short() }),
+                    json!({"type": case.ty.name, "op": case.name, "operands": vs}),
+                );
+                return;
+            }
             other => {
                 acc.inconclusive(&format!("run did not complete: {}", format!("{other:?}").chars().take(40).collect::<String>()));
                 continue;
